@@ -96,8 +96,8 @@ NormCommand(s) ==
         consumed == {"commands", "command", keyK, labK, "plugins", "env", "matrix", "cache"}
         opt(k, v) == IF v = Null THEN <<>> ELSE << <<k, v>> >>
     IN Map(<< <<"command", Str(command)>> >>
-           \o (IF keyK = "<none>" THEN <<>> ELSE << <<"key", StrOf(MGet(s, keyK))>> >>)
-           \o (IF labK = "<none>" THEN <<>> ELSE << <<"label", StrOf(MGet(s, labK))>> >>)
+           \o (IF keyK = "<none>" \/ Sprint(MGet(s, keyK)) = "" THEN <<>> ELSE << <<"key", StrOf(MGet(s, keyK))>> >>)     \* empty: omitted
+           \o (IF labK = "<none>" \/ Sprint(MGet(s, labK)) = "" THEN <<>> ELSE << <<"label", StrOf(MGet(s, labK))>> >>)
            \o (IF MHas(s, "plugins") THEN << <<"plugins", NormPlugins(MGet(s, "plugins"))>> >> ELSE <<>>)
            \o (IF MHas(s, "env") THEN << <<"env", StrValues(MGet(s, "env"))>> >> ELSE <<>>)
            \o (IF MHas(s, "matrix") THEN << <<"matrix", NormMatrix(MGet(s, "matrix"))>> >> ELSE <<>>)
@@ -111,7 +111,7 @@ NormGroup(s) ==
         grpV == IF grpK = "<none>" \/ MGet(s, grpK) = Null THEN Null ELSE StrOf(MGet(s, grpK))
     IN Map(<< <<"group", grpV>>,
               <<"steps", IF MHas(s, "steps") THEN NormSteps(MGet(s, "steps")) ELSE EmptySeq>> >>
-           \o (IF keyK = "<none>" THEN <<>> ELSE << <<"key", StrOf(MGet(s, keyK))>> >>)
+           \o (IF keyK = "<none>" \/ Sprint(MGet(s, keyK)) = "" THEN <<>> ELSE << <<"key", StrOf(MGet(s, keyK))>> >>)
            \o MDrop(s, {grpK, "steps", keyK}))
 NormStep(s) ==
     IF s.t # "m" THEN s                                                \* scalar steps stay as written
